@@ -326,7 +326,7 @@ pub fn run(args: &Args) -> i32 {
     let wire_cells: Vec<Cell> = drive::all_cells().into_iter().filter(|c| c.privileged && !c.ext && c.proto != Proto::Tcp).collect();
     let sizes_v4 = [28u16, 29, 30, 31, 48, 63, 64, 65, 84, 255, 256, 1023, 1024];
     let sizes_v6 = [48u16, 49, 50, 51, 63, 64, 65, 96, 255, 256, 1023, 1024];
-    let patterns: Vec<u8> = if tier == Tier::Thorough { (0..=255).collect() } else { vec![0x00, 0x01, 0x5a, 0x7f, 0x80, 0xa5, 0xfe, 0xff] };
+    let patterns: Vec<u8> = (0..=255).collect();
     let wtasks: Vec<(usize, u16, u8)> = (0..wire_cells.len())
         .flat_map(|c| {
             let sizes: Vec<u16> = if wire_cells[c].v6 { sizes_v6.to_vec() } else { sizes_v4.to_vec() };
@@ -405,7 +405,7 @@ pub fn run(args: &Args) -> i32 {
     rep.set("evaluations", json!(n + pn));
     rep.set("distinct_nontrivial", json!(nontrivial + pn));
     rep.set("paris_dispatches", json!(pn));
-    rep.set("rule", json!("6 public checksum functions x every message length header..1024 (IPv4 header: 20..60) x contents {zeros, 0xFF, ramp, alternating, each single-0xFF position, junk in the checksum field} x 3 address pairs, plus all 2^16 values of the word after the skipped one; reference: 64-bit accumulate-then-fold from RFC 1071; then checksum inserted must fold to 0xFFFF. Paris: all 2^16 sequences x {v4,v6} x {fixed src, fixed dest, fixed both} through the real Channel dispatch, decoded by the independent codec. Wire level: every privileged ICMP/UDP cell x 12-13 packet sizes (odd/even, min..1024) x payload patterns {00,01,5a,7f,80,a5,fe,ff} (thorough: all 256) x 12 sequences through the real Channel dispatch: the emitted L4 message (and the IPv4 header, where the kernel model does not rewrite it) must verify. Non-trivial = content not all zero"));
+    rep.set("rule", json!("6 public checksum functions x every message length header..1024 (IPv4 header: 20..60) x contents {zeros, 0xFF, ramp, alternating, each single-0xFF position, junk in the checksum field} x 3 address pairs, plus all 2^16 values of the word after the skipped one; reference: 64-bit accumulate-then-fold from RFC 1071; then checksum inserted must fold to 0xFFFF. Paris: all 2^16 sequences x {v4,v6} x {fixed src, fixed dest, fixed both} through the real Channel dispatch, decoded by the independent codec. Wire level: every privileged ICMP/UDP cell x 12-13 packet sizes (odd/even, min..1024) x all 256 payload patterns x 12 sequences through the real Channel dispatch: the emitted L4 message (and the IPv4 header, where the kernel model does not rewrite it) must verify. Non-trivial = content not all zero"));
     rep.sample(json!({"function": "udp_ipv4_checksum", "len": 9, "content": "single 0xFF at position 8", "addresses": "192.168.1.21 -> 142.250.204.142"}));
     rep.sample(json!({"paris": "udp/v6/paris/fixedboth", "sequence": 65535, "expect": "UDP checksum field 0xffff, datagram verifies"}));
     rep.assumptions = vec!["domain: whole ICMP/UDP/TCP messages (>= header size), DESIGN.md 5.10".into()];
